@@ -49,3 +49,53 @@ proof fn lemma_first_nul(s: Seq<u8>, p: int)
         lemma_first_nul(s.skip(1), p - 1);
     }
 }
+proof fn lemma_first_nul_is(s: Seq<u8>)
+    requires first_nul(s) < s.len(),
+    ensures s[first_nul(s)] == 0, forall|j: int| 0 <= j < first_nul(s) ==> s[j] != 0, 0 <= first_nul(s),
+    decreases s.len(),
+{
+    if s.len() == 0 || s[0] == 0 { } else {
+        lemma_first_nul_is(s.skip(1));
+        assert forall|j: int| 0 <= j < first_nul(s) implies s[j] != 0 by { if j > 0 { assert(s.skip(1)[j - 1] == s[j]); } }
+    }
+}
+proof fn lemma_first_nul_none(s: Seq<u8>)
+    requires first_nul(s) >= s.len(),
+    ensures first_nul(s) == s.len(), forall|j: int| 0 <= j < s.len() ==> s[j] != 0,
+    decreases s.len(),
+{
+    if s.len() == 0 { } else if s[0] == 0 { } else {
+        lemma_first_nul_none(s.skip(1));
+        assert forall|j: int| 0 <= j < s.len() implies s[j] != 0 by { if j > 0 { assert(s.skip(1)[j - 1] == s[j]); } }
+    }
+}
+// X.iter().any(|&b| b < v)  ->  !vx_all_ge(X, v)   (verified loop)
+pub fn vx_all_ge(s: &[u8], v: u8) -> (r: bool)
+    ensures r == (forall|i: int| 0 <= i < s@.len() ==> s@[i] >= v),
+{
+    let mut i: usize = 0;
+    while i < s.len()
+        invariant i <= s@.len(), forall|j: int| 0 <= j < i ==> s@[j] >= v,
+        decreases s@.len() - i,
+    {
+        if s[i] < v { return false; }
+        i += 1;
+    }
+    true
+}
+impl<'a> IntUnpacker<'a> {
+    #[verifier::prophetic]
+    spec fn rest(&self) -> Seq<i32> { Seq::new(self.iter.remaining().len(), |i: int| *self.iter.remaining()[i]) }
+}
+#[verifier::external_body]
+fn vx_iter32_as_slice<'a>(it: &core::slice::Iter<'a, i32>) -> (r: &'a [i32])
+    ensures r@.len() == it.remaining().len(), forall|i: int| 0 <= i < r@.len() ==> r@[i] == *it.remaining()[i],
+{ it.as_slice() }
+#[verifier::external_body]
+fn vx_iter32_len(it: &core::slice::Iter<i32>) -> (r: usize) ensures r == it.remaining().len(), { it.len() }
+#[verifier::external_body]
+fn vx_drain32(it: &mut core::slice::Iter<i32>) ensures (*final(it)).remaining().len() == 0, { let _ = it.by_ref().count(); }
+// Option<&i32>::copied (no vstd specification)
+fn vx_copied(o: Option<&i32>) -> (r: Option<i32>)
+    ensures r is Some <==> o is Some, o is Some ==> r->Some_0 == *o->Some_0,
+{ match o { Some(x) => Some(*x), None => None } }
